@@ -343,8 +343,10 @@ class Schema:
                     path_i_str = tuple(str(i) for i in path_i)
                     if path_i_str not in items:
                         items[path_i_str] = {"path": path_simple_i}
+                    # required if named by any always-applicable `required_keys`:
                     items[path_i_str]["required"] = (
-                        key_cnd.callable.name == "required_keys"
+                        items[path_i_str].get("required", False)
+                        or key_cnd.callable.name == "required_keys"
                     )
 
             type_cnds = rule.condition.get_always_applicable_type_like_conditions()
